@@ -25,7 +25,8 @@ META = {
         "the reader's language and groups consecutive runs in list order; the "
         "connector-word tables used to filter sections / clean descriptions "
         "are word-anchored; a dictated layout reaches every chunk parser."
-        ' Also: the stand-alone through_regex is case-closed w.r.t. the regexes that embed it; every Twp/Rge twprge_regex can capture is a valid TRS; layout if/elif chains without else are exhaustive; helpers that are handed the layout are included in the dispatch table check.'),
+        ' Also: the stand-alone through_regex is case-closed w.r.t. the regexes that embed it; every Twp/Rge twprge_regex can capture is a valid TRS; layout if/elif chains without else are exhaustive; helpers that are handed the layout are included in the dispatch table check.'
+        " Round 7: cleanup_desc word tests act on lower-cased text and never remove a word from the front; possessive quantifiers are modelled exactly for single-character bodies (compact 't154nr97w' is part of the spelling family)."),
     'families': ['TBL', 'RX-LANG', 'ORDER'],
 }
 
